@@ -13,7 +13,8 @@ RUN_EXPR = "Run.C21.run"
 RULE = ("random programs of the statement subset placing uniquely named marker declarations, body-less at-rules and loud "
         "comments in every container kind (style rules, nested-property blocks, @media, other at-rules, @at-root, @if, @each, "
         "mixin bodies, content blocks) and @error in every statement position - also conditionally on the loop variable in one "
-        "iteration of @each / @for / @while loops, raised directly, through an included mixin or through a called function -, compiled in both styles; distinct = distinct "
+        "iteration of @each / @for / @while loops, raised directly, through an included mixin, through a called function or from the "
+        "interpolation of a loud comment -, compiled in both styles; distinct = distinct "
         "SCSS text; non-trivial = the run reaches at least one marker or an @error")
 EXHAUSTIVE = {"quick": False, "thorough": False}
 TRUSTED = ["Spec/Reach.v: which leaf statements a run reaches (reference semantics of the statement subset)",
@@ -36,6 +37,10 @@ def loop_wit(kind, inner):
 
 
 WIT += [
+    # @error raised by a function called from a loud comment's interpolation (seeded C21-r2): must fail in BOTH styles
+    {"mixins": [], "main": [["r", [["p", "a"]], [["d", "p910", "v910"], ["ce", "911"]]]]},
+    {"mixins": [[["ce", "912"]]], "main": [["m", "print", [["r", [["p", "a"]], [["inc", 0, None]]]]]]},
+    loop_wit("each", [["r", [["p", "a"]], [["cdfn", 1, 0, "913"], ["d", "p914", "v914"]]]]),
     # an error in a NON-FINAL iteration must not be overwritten by a later successful iteration (seeded C21-1)
     loop_wit("each", [["r", [["p", "a"]], [["d", "p901", "v901"], ["ifv", 1, 1, [["e", "boom902"]], []], ["d", "p903", "v903"]]]]),
     loop_wit("for", [["r", [["p", "a"]], [["ifv", 1, 0, [["e", "boom904"]], [["d", "p905", "v905"]]]]]]),
